@@ -111,14 +111,16 @@ Step(ls, ch, eof) ==
     [] ls.st = "numstr" -> InNumOrStrState(ls, ch, eof)
     [] ls.st = "str"    -> InStrState(ls, ch, eof)
 
-Halted(ls) == ls.st \in {"end", "error"}
+Halted(ls) == ls.st \in {"end", "error", "stuck"}
 
 \* Lex(): a character is offered to the current state again and again until a
 \* state consumes it (currConsumed); at end of input the states are run until
-\* the lexer halts.  n bounds the re-feeding (the invariants show 3 suffices).
+\* the lexer halts.  n bounds the re-offering; running out of the bound is made
+\* visible as the pseudo state "stuck".
 RECURSIVE FeedN(_, _, _, _)
 FeedN(ls, ch, eof, n) ==
-  IF Halted(ls) \/ n = 0 THEN ls
+  IF Halted(ls) THEN ls
+  ELSE IF n = 0 THEN [ls EXCEPT !.st = "stuck"]      \* never happens (invariant NeverStuck)
   ELSE LET r == Step(ls, ch, eof)
        IN IF r.c /\ ~eof THEN r.ls ELSE FeedN(r.ls, ch, eof, n - 1)
 Feed(ls, ch) == FeedN(ls, ch, FALSE, 4)
